@@ -72,7 +72,7 @@ pub fn gen(r: &mut Rng) -> Value {
         let k = r.pick(&["k1", "k2", "a"]).to_string();
         let i = r.below(4);
         let op = match r.below(33) {
-            26 => json!({"op": "array_join", "slot": h, "v": r.pick(&[",", "", ", ", "-"])}),
+            26 => if r.chance(1, 2) { json!({"op": "set_from_array", "slot": h, "dst": r.below(4)}) } else { json!({"op": "array_join", "slot": h, "v": r.pick(&[",", "", ", ", "-"])}) },
             27 => json!({"op": "array_contains", "slot": h, "v": v}),
             28 => json!({"op": "array_is_empty", "slot": h}),
             29 => json!({"op": "map_contains_key", "slot": h, "k": k}),
@@ -287,6 +287,20 @@ pub fn run(input: &Value) -> Option<Value> {
                 Some(Coll::Set(s)) => (format!("out = set_remove {} {}", hv, q(&v)), Some(s.remove(&v).to_string())),
                 _ => (format!("out = set_remove {} {}", hv, q(&v)), err.clone()),
             },
+            // script-implemented: a NEW set holding exactly the array's values, verbatim (checked at once through its size)
+            "set_from_array" => {
+                let dst = op["dst"].as_u64().unwrap_or(0) as usize;
+                match model[slot].clone() {
+                    Some(Coll::Arr(a)) if dst != slot => {
+                        let st: BTreeSet<String> = a.iter().cloned().collect();
+                        let n = st.len();
+                        model[dst] = Some(Coll::Set(st));
+                        (format!("release ${{h{}}}\nh{} = set_from_array {}\nout = set_size ${{h{}}}", dst, dst, hv, dst), Some(n.to_string()))
+                    }
+                    Some(Coll::Arr(_)) => ("out = set skipped".to_string(), Some("skipped".to_string())),
+                    _ => (format!("out = set_from_array {}", hv), err.clone()),
+                }
+            }
             "set_size" => match &model[slot] {
                 Some(Coll::Set(s)) => (format!("out = set_size {}", hv), Some(s.len().to_string())),
                 _ => (format!("out = set_size {}", hv), err.clone()),
